@@ -39,7 +39,10 @@ def make_inputs(rnd, n):
             src = rnd.choice(["val + 1", "g(1) + val", "[val, val]", "val + 2d6", "g(2)"]) + (" + hp" if "&hp" in pre else "")
             restore = rnd.random() < 0.6
         nxt = rnd.choice(DICE[:14])
-        out.append({"b64": base64.b64encode(src.encode()).decode(), "pre": base64.b64encode(pre.encode()).decode(),
+        # a third of the programs that reach a random array method run on VMs in min / max mode (dice draw nothing there, the array
+        # methods still draw from the VM's own generator)
+        mode = rnd.choice([-1, 1]) if (any(m in src + pre for m in ("shuffle", "rand")) and rnd.random() < 0.6) or rnd.random() < 0.1 else 0
+        out.append({"mode": mode, "b64": base64.b64encode(src.encode()).decode(), "pre": base64.b64encode(pre.encode()).decode(),
                     "next": base64.b64encode(nxt.encode()).decode(), "restore": restore, "_src": src, "_pre": pre, "_next": nxt})
     return out
 
@@ -78,10 +81,11 @@ def run(res, tier, seed):
     res.cov["rule"] = ("dice-using programs (every family incl. Double Cross, default sides, nested rolls, the random array methods, templates, functions and "
                        "computed values from the history) each run from random 16-byte seeds: (a) twice from the same seed, (b) with the package-level "
                        "generator advanced and an unrelated unseeded VM rolling in between, (c) continued on the same VM vs on a fresh VM seeded with "
-                       "GetCurSeed; compared: value, process text, error, final generator state; plus Init/Uint64/GetCurSeed against the PCG model; "
+                       "GetCurSeed, (d) on one context seeded a second time from the same bytes; a share of the programs with array draws on VMs in min / max mode; compared: value, process text, error, final generator state; plus Init/Uint64/GetCurSeed against the PCG model; "
                        "distinct = distinct (program, history); non-trivial = evaluations that succeed")
     res.cov["input_distribution"] = {"programs": len(inputs), "succeeded": sum(1 for r in rows if r["a"]["ok"]),
-                                     "with_resume": sum(1 for r in rows if "resume_same" in r), "pcg_cases": len(pcg_rows),
+                                     "with_resume": sum(1 for r in rows if "resume_same" in r), "with_reseed_same_bytes": sum(1 for r in rows if "reseed_same" in r),
+                                     "min_max_mode_programs": sum(1 for i in inputs if i["mode"]), "min_max_mode_with_array_draws": sum(1 for i in inputs if i["mode"] and any(m in i["_src"] + i["_pre"] for m in ("shuffle", "rand"))), "pcg_cases": len(pcg_rows),
                                      "short_seed_cases": sum(1 for r in pcg_rows if len(r["seed"] or []) < 16)}
     res.cov["translator"] = gstats
     res.sample({"src": inputs[0]["_src"], "a": rows[0]["a"]})
@@ -90,7 +94,6 @@ def run(res, tier, seed):
         "Model/PCG.v hand-written (constants of golang.org/x/exp/rand), tied by exact Init / Uint64 / GetCurSeed correspondence",
         "footprint table Gen/Globals.v regenerated from /repo by tools/globals (go/ast): confinement of the package-level generator",
         "non-interference for every VM opcode is a Go-vs-Go search here (perturbing the package generator); the VM-level theorem awaits the VM model",
-        "recorded finding: Go map iteration order is visible through keys()/values()/items()/str(dict)/dir(): such programs are excluded from the comparison",
     ]
     known = {k["key"]: k for k in common.known_for("C06")}
     found = 0
@@ -103,7 +106,12 @@ def run(res, tier, seed):
                 order_hits += 1
                 continue
             res.violation({"what": "same program, same seed, same history: different outcome after the package generator / another VM was used in between",
-                           "src": i["_src"], "history": i["_pre"], "first": r["a"], "second": r["b"]})
+                           "src": i["_src"], "history": i["_pre"], "mode": i["mode"], "first": r["a"], "second": r["b"]})
+            found += 1
+        elif "reseed_same" in r and not r["reseed_same"]:
+            res.violation({"what": "seeding one context again from the SAME seed bytes (ctx.Seed = same bytes; ctx.Init()) does not give the run these bytes give "
+                                   "on a fresh context", "src": i["_src"], "mode": i["mode"], "fresh_context": r["a"], "first_run_on_context": r["r1"],
+                           "after_reseeding_same_bytes": r["r2"]})
             found += 1
         elif "resume_same" in r and not r["resume_same"]:
             res.violation({"what": "continuing on a fresh VM seeded from GetCurSeed differs from continuing on the same VM",
